@@ -3199,9 +3199,13 @@ def phase_angle(sun_dist, earth_dist, sun_earth_dist):
     if not (isinstance(sun_dist, float) and isinstance(earth_dist, float)
             and isinstance(sun_earth_dist, float)):
         raise TypeError("Invalid input types")
-    angle = acos((sun_dist * sun_dist + earth_dist * earth_dist
-                  - sun_earth_dist * sun_earth_dist)
-                 / (2.0 * sun_dist * earth_dist))
+    cosine = ((sun_dist * sun_dist + earth_dist * earth_dist
+               - sun_earth_dist * sun_earth_dist)
+              / (2.0 * sun_dist * earth_dist))
+    # For aligned bodies rounding may leave the cosine a hair beyond +-1
+    if abs(cosine) > 1.0 and abs(cosine) - 1.0 < 1e-12:
+        cosine = copysign(1.0, cosine)
+    angle = acos(cosine)
     angle = Angle(angle, radians=True)
     return angle
 
